@@ -41,6 +41,7 @@ MIN_REACH = {
     "aggregates_compared": {"quick": 100, "thorough": 1500},
     "histograms_compared": {"quick": 120, "thorough": 1200},
     "heatmap_cells_compared": {"quick": 300, "thorough": 5000},
+    "slices_holding_infinite_values": {"quick": 30, "thorough": 500},
 }
 TIME_BUDGET = {"quick": 500, "thorough": 3400}
 PROPS = ["color", "hue", "marker", "markersize", "markeredgecolor", "linewidth", "linestyle", "row", "col"]
@@ -140,6 +141,21 @@ def build(case):
             y[tuple(idx)] = np.nan                # one whole coordinate of a dimension is empty
     if not np.isfinite(y).any() or (dims and pat in ("slice", "coord", "mixed") and np.isfinite(y).sum() < 2):
         y = rng.normal(size=shape)          # an entirely empty dataset has nothing to draw
+    if case["mode"] == "lines" and case["dseed"] % 6 == 2 and case["dseed"] % 5 != 0:
+        # +-inf are DATA (a divergence), not missing values: some points, and (with mapped dimensions) one slice whose
+        # only non-NaN values are infinite
+        fin = np.argwhere(np.isfinite(y))
+        for k in rng.choice(len(fin), size=min(len(fin), max(1, len(fin) // 8)), replace=False):
+            y[tuple(fin[k])] = np.inf if rng.random() < 0.5 else -np.inf
+        if dims and y.size > y.shape[alld.index("x")] and rng.random() < 0.5:
+            idx = [slice(None)] * len(alld)
+            for d in dims:
+                idx[alld.index(d)] = int(rng.integers(0, case["sizes"][d]))
+            sl = y[tuple(idx)]
+            sl[~np.isnan(sl)] = np.inf
+            if np.isnan(sl).all():
+                sl[0] = -np.inf
+            y[tuple(idx)] = sl
     data = {"y": (tuple(alld), y)}
     if case["mode"] == "hist":
         data["v"] = (tuple(alld), y * 2.0)
@@ -196,8 +212,8 @@ def arr_key(a, approx=False):
     """Identity of a drawn array: exact for raw slices (unique random floats), rounded for computed
     ones (aggregates / histograms: summation order may differ in the last bits)."""
     if approx:
-        return tuple("nan" if not np.isfinite(v) else "%.9g" % float(v) for v in np.asarray(a, dtype=float).ravel())
-    return tuple("nan" if not np.isfinite(v) else repr(float(v)) for v in np.asarray(a, dtype=float).ravel())
+        return tuple("nan" if np.isnan(v) else "%.9g" % float(v) for v in np.asarray(a, dtype=float).ravel())
+    return tuple("nan" if np.isnan(v) else repr(float(v)) for v in np.asarray(a, dtype=float).ravel())
 
 
 def run_case(ctx, case):
@@ -363,7 +379,9 @@ def run_case(ctx, case):
                         xv = xs
                         if "tx" in work:
                             xv = np.asarray(sub["tx"].values, dtype=float)
-                    m = np.isfinite(yv) & np.isfinite(xv)
+                    m = ~np.isnan(yv) & ~np.isnan(xv)         # (missing = NaN; +-inf are data)
+                    if np.isinf(yv).any():
+                        ctx.count("slices_holding_infinite_values")
                     if not m.any():
                         continue
                     if (mode == "lines" and case["join"]):
